@@ -52,7 +52,12 @@ fn run_script(sc: &Value, id: usize, out: Out) {
 }
 
 fn main() {
-    std::panic::set_hook(Box::new(|_| {}));
+    // panics of the code under test are data; CONFORM_PANIC=1 prints them for debugging
+    if std::env::var("CONFORM_PANIC").is_ok() {
+        std::panic::set_hook(Box::new(|info| eprintln!("PANIC: {}", info)));
+    } else {
+        std::panic::set_hook(Box::new(|_| {}));
+    }
     let args: Vec<String> = std::env::args().collect();
     if args.len() < 2 {
         eprintln!("usage: conform replay <scripts.ndjson> <trace.ndjson>");
